@@ -334,6 +334,31 @@ class Run(object):
     def op_ortho(self, rec):
         return self._op_sweep("ortho", rec)
 
+    # ------------------------------------------------------------------ the caller edits the object between calls
+    def op_poke(self, rec):
+        """C03-C05 are statements about the tensor train a call RECEIVES.  Between two calls the owner of the object may
+        have changed it by the means the class offers -- its cores are public, mutable arrays: scale a slice of a core in
+        place (the array keeps its identity), or assign a new array of the same shape.  The model simply follows; any
+        per-object bookkeeping the library keeps (an 'already orthonormal' flag, a cached decomposition) must not survive
+        such an edit."""
+        a = rec.get("args", {})
+        t = self.t
+        i = int(a.get("core", 0)) % t.order
+        g = np.random.Generator(np.random.PCG64(rec.get("sub_seed", 0)))
+        c = t.cores[i]
+        if not isinstance(c, np.ndarray) or c.size == 0:
+            return "skip"
+        w = g.uniform(0.5, 2.0, size=c.shape[1])
+        if a.get("how") == "assign":
+            t.cores[i] = np.array(c, dtype=np.result_type(c.dtype, float)) * w[None, :, None, None]
+        else:
+            if c.dtype.kind in "iub" or not c.flags.writeable:
+                return "skip"
+            c *= w[None, :, None, None].astype(c.dtype) if c.dtype.kind == "f" else w[None, :, None, None]
+        self.probes["object_edited_by_caller"] += 1
+        self._resnap()
+        return "ok"
+
     # ------------------------------------------------------------------ a consumer of the sweep: norm() (C03 retry path)
     def op_norm2(self, rec):
         """TT.norm(p=2) right-orthonormalises a copy and reads the norm off the first core: the value is only right
@@ -669,9 +694,9 @@ class Run(object):
 # ====================================================================== generation
 
 FOCUS = {
-    "C03": {"sweep": 8, "trunc": 2, "construct": 1, "helper": 0, "svd": 1, "norm": 1},
-    "C04": {"sweep": 2, "trunc": 7, "construct": 5, "helper": 3, "svd": 0},
-    "C05": {"sweep": 3, "trunc": 1, "construct": 0, "helper": 0, "svd": 10},
+    "C03": {"sweep": 8, "trunc": 2, "construct": 1, "helper": 0, "svd": 1, "norm": 1, "poke": 1},
+    "C04": {"sweep": 3, "trunc": 7, "construct": 5, "helper": 3, "svd": 0, "poke": 1},
+    "C05": {"sweep": 3, "trunc": 1, "construct": 0, "helper": 0, "svd": 10, "poke": 1},
 }
 
 
@@ -775,6 +800,8 @@ def _choose(rnd, run, cfg, prop):
         rec = {"op": op, "args": a}
     elif g == "norm":
         rec = {"op": "norm2", "args": {}}
+    elif g == "poke":
+        rec = {"op": "poke", "args": {"core": rnd.randrange(d), "how": rnd.choice(("inplace", "inplace", "assign"))}}
     elif g == "construct":
         op = rnd.choice(("tt_from_array", "tt_from_array", "tt_from_cores"))
         a = {}
